@@ -178,7 +178,7 @@ fn main() {
     // periodic longer maps first
     {
         let rich = !ctx.quick();
-        for mu in vh::uni::motif_universes(&vh::gen::MODE_CFGS, ctx.pick(2, 3), 6, false).into_iter().chain(vh::uni::rhythm_universes(&vh::gen::MODE_CFGS, 3, 3)) {
+        for mu in vh::uni::motif_universes(&vh::gen::MODE_CFGS, ctx.pick(2, 3), 6, false).into_iter().chain(vh::uni::rhythm_universes(&vh::gen::MODE_CFGS, 3, 3)).chain(if rich { vh::uni::rhythm_universes_wide(&vh::gen::MODE_CFGS) } else { Vec::new() }) {
             let menu = settings_menu(mu.cfg.dst, rich);
             ctx.universe(&mu.name, mu.total, |idx, l| {
                 let spec = mu.spec(idx);
